@@ -31,7 +31,13 @@ package harness
 //   8. MsgWriteScope on an existing scope WITH a value owner: the value owner changes together with
 //      (a) nothing else, (b) only optional flags of existing owners, (c) roles / owners, (d) data
 //      access, specification id or rollup flag, or does not change; signed by the value owner only,
-//      by the required parties only, by both, or by both with one missing / replaced by a grant.
+//      by the required parties only, by both, or by both with one missing / replaced by a grant;
+//   9. count-limited authorizations WITH EXPIRATIONS at controlled block times (uses before, exactly
+//      at and after the expiration second; the stored expiration read back after every message).
+// A third of the MsgWriteScope / MsgWriteSession / MsgWriteRecord messages of every stream identify
+// their entry and specification through the optional fields (scope_uuid, spec_uuid,
+// session_id_components, contract_spec_uuid) instead of the ids; the case term always carries the
+// STORED entry's parties, so the checker demands what the stored entry demands.
 //
 // Accounts: ids 1,2 have no account, 3 is a BaseAccount with sequence 7, 4 a BaseAccount with a
 // public key, 5 and 6 are BaseAccounts with sequence 0 and no public key — which is exactly what
@@ -86,6 +92,8 @@ type c10Env struct {
 	r     *rand.Rand
 	// one representative description per kind of case, for the evidence file
 	samples map[string]any
+	// optionalize: 0 = at random, 1 = always, -1 = never (fixed witnesses)
+	forceOptional int
 }
 
 func (e *c10Env) sample(key string, d any) {
@@ -1016,10 +1024,18 @@ func (e *c10Env) emitOuter(t *testing.T, kind int, name, op string, setup func(s
 	if len(wasm) != 2 {
 		e.w.Count(stream + "_fresh_account_counts_as_contract")
 	}
-	err := e.send(ctx, build(signers))
+	msg, viaOptional := e.optionalize(build(signers))
+	err := e.send(ctx, msg)
 	ok := err == nil
+	if viaOptional {
+		e.w.Count(stream + "_via_optional_id_fields")
+		if ok {
+			e.w.Count(stream + "_via_optional_id_fields_accepted")
+		}
+	}
 	term := fmt.Sprintf("COuter %d %s %s (%s) %s %s", kind, c10Ints(wasm), c10Grants(grants), op, c10Ints(signers), coqBool(ok))
-	d := c10Desc{"msg": name, "stream": stream, "op": op, "grants": grants2desc(grants), "signers": signers, "accepted": ok, "contracts": wasm}
+	d := c10Desc{"msg": name, "stream": stream, "op": op, "grants": grants2desc(grants), "signers": signers, "accepted": ok, "contracts": wasm,
+		"ids_via_optional_fields": viaOptional}
 	if err != nil {
 		m := err.Error()
 		if len(m) > 200 {
@@ -1619,9 +1635,259 @@ func (e *c10Env) voScopeCase(t *testing.T, i int) {
 	}
 }
 
+// optionalize rewrites (one time in three) a MsgWriteScope / MsgWriteSession / MsgWriteRecord so that
+// the entry and its specification are identified ONLY by the optional fields (scope_uuid, spec_uuid,
+// session_id_components, contract_spec_uuid); the ids inside the entry are left empty. ValidateBasic
+// converts a copy (value receiver), the message server has to convert the message it is given.
+func (e *c10Env) optionalize(m c10VB) (c10VB, bool) {
+	r := e.r
+	skip := func(n int) bool {
+		switch e.forceOptional {
+		case 1:
+			return false
+		case -1:
+			return true
+		}
+		return r.Intn(n) != 0
+	}
+	switch msg := m.(type) {
+	case *mdtypes.MsgWriteScopeRequest:
+		if skip(3) {
+			return m, false
+		}
+		uid, err := msg.Scope.ScopeId.ScopeUUID()
+		if err != nil {
+			return m, false
+		}
+		msg.ScopeUuid, msg.Scope.ScopeId = uid.String(), nil
+		if r.Intn(2) == 0 {
+			if sid, err := msg.Scope.SpecificationId.ScopeSpecUUID(); err == nil {
+				msg.SpecUuid, msg.Scope.SpecificationId = sid.String(), nil
+			}
+		}
+		return msg, true
+	case *mdtypes.MsgWriteSessionRequest:
+		if skip(2) {
+			return m, false
+		}
+		comp := e.sessionComponents(msg.Session.SessionId)
+		if comp == nil {
+			return m, false
+		}
+		msg.SessionIdComponents, msg.Session.SessionId = comp, nil
+		if r.Intn(2) == 0 {
+			if sid, err := msg.Session.SpecificationId.ContractSpecUUID(); err == nil {
+				msg.SpecUuid, msg.Session.SpecificationId = sid.String(), nil
+			}
+		}
+		return msg, true
+	case *mdtypes.MsgWriteRecordRequest:
+		if skip(3) {
+			return m, false
+		}
+		comp := e.sessionComponents(msg.Record.SessionId)
+		if comp == nil {
+			return m, false
+		}
+		msg.SessionIdComponents, msg.Record.SessionId = comp, nil
+		if r.Intn(2) == 0 && msg.Record.SpecificationId.Empty() {
+			msg.ContractSpecUuid = c10CSpecU.String()
+		}
+		return msg, true
+	}
+	return m, false
+}
+
+func (e *c10Env) sessionComponents(id mdtypes.MetadataAddress) *mdtypes.SessionIdComponents {
+	scopeUUID, err := id.ScopeUUID()
+	if err != nil {
+		return nil
+	}
+	sessUUID, err := id.SessionUUID()
+	if err != nil {
+		return nil
+	}
+	comp := &mdtypes.SessionIdComponents{SessionUuid: sessUUID.String()}
+	if e.r.Intn(2) == 0 {
+		comp.ScopeIdentifier = &mdtypes.SessionIdComponents_ScopeUuid{ScopeUuid: scopeUUID.String()}
+	} else {
+		comp.ScopeIdentifier = &mdtypes.SessionIdComponents_ScopeAddr{ScopeAddr: mdtypes.ScopeMetadataAddress(scopeUUID).String()}
+	}
+	return comp
+}
+
+// ---------- count-limited authorizations with expirations and block times ----------
+
+type c10TGrant struct{ granter, grantee, kind, uses, exp int } // uses 0 = generic, exp 0 = none (seconds after c10T0)
+
+var c10T0 = time.Date(2031, 3, 1, 12, 0, 0, 0, time.UTC)
+
+func (e *c10Env) countTimedCase(t *testing.T, i int) {
+	r := e.r
+	kind := e.pick([]int{1, 2, 5, 8, 3, 3})
+	goodKinds := []int{kind}
+	switch kind {
+	case 3, 5:
+		goodKinds = append(goodKinds, 1)
+	case 8:
+		goodKinds = append(goodKinds, 7)
+	}
+	granter := 1 + r.Intn(4)
+	var signers []int
+	nS := 1 + r.Intn(2)
+	for _, a := range r.Perm(4) {
+		if a+1 != granter && len(signers) < nS {
+			signers = append(signers, a+1)
+		}
+	}
+	var st []c10TGrant
+	for _, s := range signers {
+		switch x := r.Intn(12); {
+		case x < 8:
+			st = append(st, c10TGrant{granter, s, e.pick(goodKinds), 1 + r.Intn(4), e.pick([]int{10, 10, 10, 20, 0})})
+		case x < 9:
+			st = append(st, c10TGrant{granter, s, e.pick(goodKinds), 0, e.pick([]int{10, 20, 0})})
+		case x < 10:
+			st = append(st, c10TGrant{granter, s, 9, 2, 10}) // unrelated kind
+		default:
+		}
+	}
+	// block times: nondecreasing, the expiration seconds themselves often and repeatedly
+	pool := []int{3, 6, 9, 10, 10, 10, 11, 15, 20, 20, 21, 30}
+	var times []int
+	for _, p := range pool {
+		if r.Intn(2) == 0 {
+			times = append(times, p)
+		}
+	}
+	if len(times) < 3 {
+		times = []int{5, 10, 10, 12}
+	}
+	if len(times) > 8 {
+		times = times[:8]
+	}
+	base, _ := e.base.CacheContext()
+	ctx := base.WithBlockTime(c10T0)
+	for _, g := range st {
+		var a authz.Authorization = authz.NewGenericAuthorization(c10KindURL[g.kind])
+		if g.uses > 0 {
+			a = authz.NewCountAuthorization(c10KindURL[g.kind], int32(g.uses))
+		}
+		var expp *time.Time
+		if g.exp > 0 {
+			x := c10T0.Add(time.Duration(g.exp) * time.Second)
+			expp = &x
+		}
+		if err := e.app.AuthzKeeper.SaveGrant(ctx, e.addrs[g.grantee], e.addrs[g.granter], a, expp); err != nil {
+			t.Fatalf("save timed grant: %v", err)
+		}
+	}
+	mode := "without"
+	switch {
+	case kind == 3 && i%2 == 0:
+		mode = "message"
+	case r.Intn(3) == 0:
+		mode = "with"
+	}
+	if mode == "message" {
+		e.fxSpecs(ctx, []int{c10Owner}, nil, nil, true, false)
+		e.fxScope(t, ctx, []c10Party{{a: granter, role: c10Owner}}, false)
+	}
+	var obs []string
+	var descObs []any
+	nAcc, atExpiry, afterExpiryAccepted := 0, 0, 0
+	for j, sec := range times {
+		now := ctx.WithBlockTime(c10T0.Add(time.Duration(sec) * time.Second))
+		var err error
+		switch mode {
+		case "message":
+			cctx, write := now.CacheContext()
+			err = e.send(cctx, &mdtypes.MsgAddScopeDataAccessRequest{ScopeId: c10ScopeID(), DataAccess: []string{addrN(3000 + j).String()}, Signers: e.strs(signers)})
+			if err == nil {
+				write()
+			}
+		case "with":
+			c := mdtypes.AddAuthzCacheToContext(now)
+			ps := e.parties([]c10Party{{a: granter, role: c10Owner}})
+			err = try(func() error {
+				return e.app.MetadataKeeper.ValidateSignersWithParties(c, ps, ps, e.roles([]int{c10Owner}), e.signerMsg(kind, signers))
+			})
+		default:
+			c := mdtypes.AddAuthzCacheToContext(now)
+			err = try(func() error {
+				return e.app.MetadataKeeper.ValidateSignersWithoutParties(c, e.strs([]int{granter}), e.signerMsg(kind, signers))
+			})
+		}
+		// the expiration stored for every original key, asked at a time before every expiration
+		var exps []int
+		for _, g := range st {
+			a, exp := e.app.AuthzKeeper.GetAuthorization(ctx, e.addrs[g.grantee], e.addrs[g.granter], c10KindURL[g.kind])
+			switch {
+			case a == nil:
+				exps = append(exps, -1)
+			case exp == nil:
+				exps = append(exps, 0)
+			default:
+				exps = append(exps, int(exp.Unix()-c10T0.Unix()))
+			}
+		}
+		items := make([]string, len(exps))
+		for q, x := range exps {
+			items[q] = fmt.Sprint(x)
+			if x < 0 {
+				items[q] = "(" + items[q] + ")"
+			}
+		}
+		obs = append(obs, fmt.Sprintf("(%s, %s)", coqBool(err == nil), coqList(items)))
+		descObs = append(descObs, map[string]any{"second": sec, "accepted": err == nil, "stored_expirations": exps})
+		if err == nil {
+			nAcc++
+		}
+		for _, g := range st {
+			if g.exp == sec {
+				atExpiry++
+			}
+			if g.exp > 0 && sec > g.exp && err == nil {
+				afterExpiryAccepted++
+			}
+		}
+	}
+	items := make([]string, len(st))
+	descG := []string{}
+	for q, g := range st {
+		items[q] = fmt.Sprintf("(%d, %d, %d, %d, %d)", g.granter, g.grantee, g.kind, g.uses, g.exp)
+		u := fmt.Sprintf("count=%d", g.uses)
+		if g.uses == 0 {
+			u = "generic"
+		}
+		x := "no expiration"
+		if g.exp > 0 {
+			x = fmt.Sprintf("expires at second %d", g.exp)
+		}
+		descG = append(descG, fmt.Sprintf("addr%d->addr%d:%s:%s:%s", g.granter, g.grantee, strings.TrimPrefix(c10KindURL[g.kind], "/provenance.metadata.v1."), u, x))
+	}
+	term := fmt.Sprintf("CCountT %d %s %d %s %s %s", kind, coqList(items), granter, c10Ints(signers), c10Ints(times), coqList(obs))
+	d := c10Desc{"stream": "count_timed", "mode": mode, "msg": c10KindURL[kind], "authorizations": descG, "required": granter,
+		"signers": signers, "messages": descObs}
+	e.w.Add(term, d)
+	if atExpiry > 0 {
+		e.sample("count_timed/"+mode, d)
+	}
+	e.w.Count("count_timed")
+	e.w.Count("count_timed_mode_" + mode)
+	e.w.CountN("count_timed_messages", int64(len(times)))
+	e.w.CountN("count_timed_messages_accepted", int64(nAcc))
+	e.w.CountN("count_timed_messages_at_an_expiration_second", int64(atExpiry))
+	e.w.CountN("count_timed_accepted_after_some_grant_expired", int64(afterExpiryAccepted))
+	e.w.Nontrivial(term)
+}
+
+
 // ---------- the concrete witnesses of the Coq observations, on the real code ----------
 
 func (e *c10Env) witnessCases(t *testing.T) {
+	e.forceOptional = -1
+	defer func() { e.forceOptional = 0 }()
 	// C10_available_order_observable
 	p1, p2 := c10Party{1, c10Owner, true}, c10Party{2, c10Owner, true}
 	gs := []c10Grant{{1, 6, 1}, {2, 3, 1}}
@@ -1676,6 +1942,29 @@ func (e *c10Env) witnessCases(t *testing.T) {
 	}
 	if !e.emitOuter(t, 8, "WriteRecord", rop, rsetup, rbuild, []int{1}, nil, "witness") {
 		e.w.Count("witness_record_move_hidden_required_missing_rejected")
+	}
+	// an EXISTING session addressed only through session_id_components: the stored session's
+	// required party (2) must sign although the signer (1, an optional scope owner) lists only itself
+	sOwners := []c10Party{{1, c10Servicer, true}, {2, c10Servicer, true}}
+	sEx := []c10Party{{2, c10Servicer, false}}
+	sProp := []c10Party{{1, c10Servicer, false}}
+	sop := fmt.Sprintf("OWriteSession true %s %s %s %s", c10Parties(sOwners), c10OptParties(true, sEx), c10Parties(sProp), c10Ints([]int{c10Servicer}))
+	ssetup := func(ctx sdk.Context) {
+		e.fxSpecs(ctx, nil, []int{c10Servicer}, nil, true, false)
+		e.fxScope(t, ctx, sOwners, true)
+		e.fxSession(ctx, c10Sess1(), sEx, "sess")
+	}
+	sbuild := func(s []int) c10VB {
+		return &mdtypes.MsgWriteSessionRequest{Session: mdtypes.Session{SessionId: c10Sess1(), SpecificationId: c10CSpecID(), Parties: e.parties(sProp), Name: "sess"}, Signers: e.strs(s)}
+	}
+	for _, f := range []int{1, -1} {
+		e.forceOptional = f
+		if !e.emitOuter(t, 7, "WriteSession", sop, ssetup, sbuild, []int{1}, nil, "witness") {
+			e.w.Count(fmt.Sprintf("witness_existing_session_needs_stored_parties_rejected_optional_fields_%v", f == 1))
+		}
+		if e.emitOuter(t, 7, "WriteSession", sop, ssetup, sbuild, []int{1, 2}, nil, "witness") {
+			e.w.Count(fmt.Sprintf("witness_existing_session_stored_parties_sign_accepted_optional_fields_%v", f == 1))
+		}
 	}
 }
 
@@ -1744,12 +2033,16 @@ func TestC10(t *testing.T) {
 	for i := 0; i < nCount; i++ {
 		e.countCase(t, i)
 	}
+	nCountT := scale(250, 3000)
+	for i := 0; i < nCountT; i++ {
+		e.countTimedCase(t, i)
+	}
 	nVO := scale(900, 12000)
 	for i := 0; i < nVO; i++ {
 		e.voScopeCase(t, i)
 	}
 	e.witnessCases(t)
-	for _, key := range []string{"count/without", "count/message", "overlap/WriteRecord/accepted=false", "overlap/WriteSession/accepted=true",
+	for _, key := range []string{"count_timed/without", "count/without", "count/message", "overlap/WriteRecord/accepted=false", "overlap/WriteSession/accepted=true",
 		"msg/UpdateValueOwners/accepted=true", "msg/AddScopeDataAccess/accepted=true", "msg/DeleteScopeDataAccess/accepted=false",
 		"vo/WriteScopeVO/accepted=false", "witness/UpdateValueOwners/accepted=false", "msg/WriteRecord/accepted=true"} {
 		if d, ok := e.samples[key]; ok {
